@@ -1605,21 +1605,6 @@ class C04(Property):
         symbol* under the unique key (the rate constant silently becomes a concentration; a value-less key is accepted) or the
         substitution overwrites the concentration.  Characterising predicate: get_odesys and the unique key of some reaction
         is a substance key (with include_params=False and no substitution of that key the build is refused, so nothing fails)."""
-        if c.get('kind') == 'pk' and c['builder'] == 'create' and c.get('pe_poly'):
-            # Finding `_create_odesys:shared-parameter-key-duplicates`: a string parameter's parameter_expressions entry appends its
-            # parameter keys unconditionally; a parameter key shared with another rate expression -> "Duplicates in keys".
-            pe_poly = dict((k, pp) for k, pp in c['pe_poly'])
-            occ = []
-            for s in c['rxns']:
-                p = s['param']
-                if p['kind'] == 'poly':
-                    occ.append(p['pk'])
-                elif p['kind'] == 'key' and p['uk'] in pe_poly:
-                    occ.append('str:' + pe_poly[p['uk']]['pk'])
-            strs = [o[4:] for o in occ if o.startswith('str:')]
-            plain = [o for o in occ if not o.startswith('str:')]
-            if any(strs.count(k) > 1 or k in plain for k in strs) and 'refused' in str(failure):
-                return '_create_odesys:shared-parameter-key-duplicates'
         if (c.get('op') == 'build' or c.get('kind') == 'fractional') and c['builder'] == 'get':
             if any(s['param'].get('uk') in c['subst'] for s in c['rxns']):
                 return 'get_odesys:substance-named-like-unique-key'
